@@ -102,7 +102,7 @@ ENGINES = {
         # the only rewrite: serverHandler's ORPort dial (a real socket) goes to the harness
         # ... and its go statements become named tasks when a scenario switches that on
         # (the accept loops spawn the handlers; everywhere else they stay plain go)
-        dict(path="obfs4proxy/obfs4proxy.go", calls={"pt.DialOr": "verifDialOr"}, go=True),
+        dict(path="obfs4proxy/obfs4proxy.go", calls={"pt.DialOr": "verifDialOr"}, types={"net.TCPConn": "verifsim/simnet.Conn"}, go=True),
         # the termination monitor carries statement-level yields (live only in the
         # scenarios that switch them on): a wake-up lost between a check and a
         # park inside wait() is an interleaving of two statements
